@@ -7,7 +7,10 @@ Tie     : extracted Fault(<code>) sites, `tb_next` test, resolve_dotted_attribut
           differential tests of `bind` against real generated `def`s and of `resolveDotted` against the real
           `xmlrpc.server.resolve_dotted_attribute`.
 Monitor : code table + "-32603 message names class and text" + invocation counters + the exception a real
-          ServerProxy raises (ProtocolError carrying the code), all from the property text.
+          ServerProxy raises (ProtocolError carrying the code), all from the property text.  "Malformed" is decided by an
+          RFC 8259 recogniser of the harness (servercases_ext.rfc8259_accepts), not by the parser under test.
+Text    : lean/JRV/Model/JsonText.lean (RFC 8259 recogniser, driver component `jsontext`), theorems C05_text_*,
+          C05_malformed_text; facts stdlibLoadsPlain / loadsEmptyIsNone / loadsParsesWholeBody (tools/extractors/textlayer.py).
 """
 import itertools
 import json
@@ -20,6 +23,10 @@ import servercases as sc
 
 REQUIRED_THEOREMS = [
     "C05_parse",
+    "C05_text_string_no_raw_control",
+    "C05_text_control_after_plain",
+    "C05_text_productions",
+    "C05_malformed_text",
     "C05_invalid",
     "C05_invalid_toplevel",
     "C05_fault_answer",
@@ -49,6 +56,9 @@ REQUIRED_THEOREMS = [
     "C05_gen_loadsGuarded",
     "C05_gen_handlersOnlyReport",
     "C05_gen_methodUnmodified",
+    "C05_gen_stdlibLoadsPlain",
+    "C05_gen_loadsEmptyIsNone",
+    "C05_gen_loadsParsesWholeBody",
 ]
 
 MONITORS = [("codes", sc.monitor_c05)]
@@ -60,7 +70,15 @@ RULE = ("as C02 with emphasis on method names against registries of functions an
         "characters with braces and percent signs, raised at frame depth 0 (registered builtins, partials) / 1 (the def's own "
         "frame: raise, \"x\"+5, len(5), a nested mis-call) / 2 / 3 and behind a decorator; plus bind() against real "
         "defs, resolveDotted against xmlrpc.server.resolve_dotted_attribute, and the exception raised by a real ServerProxy "
-        "looped onto the dispatcher for each of the five codes")
+        "looped onto the dispatcher for each of the five codes; malformed bodies: every production of RFC 8259 that the "
+        "standard parser enforces (raw control characters U+0000-U+001F in strings, unknown / short / non-hex escapes, leading "
+        "zeros, '+', missing digits, other radices, non-ASCII digits, other spellings of the literals, other string syntaxes, "
+        "trailing / leading / doubled / missing separators, unquoted / non-string names, comments, unbalanced brackets, white "
+        "space other than SP TAB LF CR, BOM, trailing text, blank bodies) applied at every site of 8 + 6 + 5 + 3 request "
+        "templates, next to the closest texts the grammar allows (quick: every production at one site + a 35 % sample; "
+        "thorough: all x 2 versions; class:malformed/<production>, class:wellformed/<production>); every body of the run is "
+        "judged by the RFC recogniser of the harness (monitor) and by the Lean recogniser JRV.Model.JsonText, compared with "
+        "the real jloads/loads (textlayer/...)")
 
 
 def bind_differential(ctx):
@@ -217,7 +235,7 @@ def gate_check(ctx):
 
 
 def run(ctx):
-    em = {"single": 1.6, "batch": 0.8, "damaged": 0.6, "descriptor": 0.8, "noise": 0.5, "pool": 0.4, "randreg": 2.5, "post": 0.02,
+    em = {"translated": 0.3, "structid": 0.3, "malformed": 0.35, "textlayer": True, "single": 1.6, "batch": 0.8, "damaged": 0.6, "descriptor": 0.8, "noise": 0.5, "pool": 0.4, "randreg": 2.5, "post": 0.02,
           "exhaustive_single": True}
     sc.standard_run(ctx, "C05", MONITORS, sc.proj_codes, em, RULE)
     bind_differential(ctx)
